@@ -275,7 +275,7 @@ from .c12_cards import r3_card_grid  # noqa: E402
 from .c12_parse import r4_parse_back  # noqa: E402
 
 RULES = [
-    ("C12-R3", r3_card_grid, 190),
+    ("C12-R3", r3_card_grid, 215),
     ("C12-R4", r4_parse_back, 45),
     ("C12-R1", r1_ladder, 190),
     ("C12-R1b", r1b_integer_arm, 2),
@@ -290,7 +290,9 @@ EXPLANATION = ("Static analysis on values. format_float8/16 are evaluated on abs
                "The scientific helpers fill exactly W for both signs, both exponent signs and 1-3 exponent digits with >= 2 digits of "
                "two-stage margin. Calls to other functions of the module are followed on their argument values, so helpers may be "
                "extracted or inlined freely. The card writers are evaluated on symbolic cards and parsed on the 8 + k*W / 72 column grid; _rdfixed is "
-               "evaluated on that text and _rdcomma on the comma forms and must return the fields one for one; nas_sscanf is evaluated on an "
+               "evaluated on that text and _rdcomma on the comma forms and must return the fields one for one; rdcards is evaluated on concrete "
+               "first lines (first separator of a free-field card at index 1..8, '*' of a large-field card at index 1..7) and the reader it "
+               "chooses, with the text and layout it hands over, must return the card's fields; nas_sscanf is evaluated on an "
                "instance of every class of text the formatters emit.")
 MANIFEST = {
     "text": "Partial claim decided statically: (1) for every decade in which fixed notation carries more digits than the scientific form, "
@@ -302,7 +304,9 @@ MANIFEST = {
             "class of text (1) and (2) emit, integers and blanks. (4) wtcard8 / wtcard16 / wtcard16d put every field of symbolic cards "
             "(1..60 fields around the line breaks, integer / real / string / blank, whole blank lines) into its own W-wide slot of the "
             "8 + k*W grid with continuation heads the reader accepts; _rdfixed returns those fields one for one from that text, _rdcomma from "
-            "the comma forms (',' '+,' ' ,' and named continuation fields, short lines). "
+            "the comma forms (',' '+,' ' ,' and named continuation fields, short lines); rdcards hands a free-field card to a reader that "
+            "returns its fields wherever the first separator sits (first fields of 1..8 characters, padded / large-field names), a "
+            "large-field card wherever the writers put the '*' (index 1..7) and a small-field card for names of 1..8 characters. "
             "Not decided: the sub-0.001 fixed-vs-scientific choice (float(field1) == float(field2), runtime), last-digit accuracy of the "
             "scientific fallback beyond the two-stage margin, nas_sscanf on arbitrary text, cards whose fields do not fit their column, "
             "include files and comment handling of rdcards.",
